@@ -1,14 +1,38 @@
 # Driver configuration for property C07
 PROP = dict(
     pkg="c07", level="exploration",
-    technique="round-trip PBT: write with core.Write*/Blockchain.Store, read through every accessor, structural equality + hash of read-back value; partial decoder vs full decoder differential",
+    technique=("round-trip PBT: write with core.Write*/Blockchain.Store, read through every accessor, structural equality + hash of read-back value; "
+               "partial decoder vs full decoder differential; lifetime oracle over scripts of several blocks on one store: values built ahead of their write, "
+               "values passed in and every kept read result are re-verified against snapshots of the originals after all later builds / writes / reads "
+               "(sequential, and 2-4 concurrent writers+readers under -race)"),
     level_text=("Exploration: generated headers/transactions/receipts/state updates/classes are stored (accessor level at sparse block numbers, and through "
                 "Blockchain.Store for valid chains) and read back through every accessor; equality is structural with nil == empty only for slices/maps, "
-                "and the hashes recomputed from the read-back values must equal the stored ones."),
+                "and the hashes recomputed from the read-back values must equal the stored ones. Values overlap in lifetime: several blocks are encoded before the "
+                "first of them is written, results of reads are held across later writes, batch/snapshot closes, Pebble flushes and reopenings, and several "
+                "goroutines use one store at once."),
     rule=("arbitrary headers with nil/non-nil optional fields, 0-12 (thorough 40) transactions of all 5 kinds x versions, receipts with events/messages/"
           "resources/revert reasons, state updates with every section populated or empty, Sierra and Cairo-0 classes; block numbers around CBOR width "
           "boundaries; memory and Pebble; Sierra program / CASM bytecode sizes around every CBOR header width, 2^16, 2^17 and up to 300001 felts "
-          "with every limb width class of the felt codec (TestPropClassSizesRoundTrip). Non-trivial = mixed-kind block, empty block, or nil optional header field; distinct = SHA-256 of block ids and shapes."),
-    assumptions=["encoding/json rendering is used as the canonical form for structural comparison", "fxamacker/cbor trusted"],
-    runs=[dict(run="^Test(Prop|Known)")],
+          "with every limb width class of the felt codec (TestPropClassSizesRoundTrip). Non-trivial = mixed-kind block, empty block, or nil optional header field; distinct = SHA-256 of block ids and shapes. "
+          "Overlapping lifetimes (TestPropOverlappingLifetimes, TestRaceConcurrentBlocks): a case is a script over 2-6 (thorough 2-10) blocks of 0-20 (thorough 0-257) "
+          "transactions on ONE store (memory, 35% Pebble v2): groups of 1-4 blocks whose encodable forms (NewBlockTransactions / NewBlockTransactionsFromIterators / "
+          "BlockTransactionsSerializer.Marshal, encoder.Marshal of header, state update, commitments and of the class declaration a third of the blocks carries (Sierra / Cairo-0) - "
+          "drawn per record family, or none = the accessor encodes at write time) "
+          "are ALL built before the first is written, then written in a drawn order through a drawn writer (one batch, one batch per block committed later in reverse order, "
+          "the store itself, an indexed batch read through before its commit, Helper.Write), with ordinary one-call writes of other blocks, reads and throw-away encodes "
+          "between build and write; reads through the store / a snapshot closed afterwards / an uncommitted indexed batch, prefix scans of the transactions bucket whose "
+          "entries are decoded after the iterator is closed, Pebble flushes and close+reopen, blocks replaced at the same height (reorg); EVERY result of a read (decoded "
+          "values, lazily decoded slices, unconsumed iterators, raw blobs) is kept and re-verified at drawn checkpoints and at the end of the case; at the end every live block "
+          "is swept through every accessor again, built values must equal the copies taken when they were built and the inputs must equal their snapshots. "
+          "Concurrent variant under -race: 2-4 goroutines on 2 Ps run one such script each (2-3, thorough 2-4 blocks; disjoint block numbers, drawn yield points between "
+          "build and write) on one store; each verifies its own round trips and kept results (schedule-independent), everything is verified again after the join. "
+          "Non-trivial there = a form was built while another built form was still waiting for its write, or a kept result was re-verified after a later write. "
+          "Blockchain level under -race (TestRaceStoreWhileReading): one Blockchain (drawn state backend, memory / 40% Pebble), a writer goroutine stores a generated valid "
+          "chain of 3-6 (thorough 3-10) blocks through SanityCheckNewHeight+Store while 1-3 reader goroutines read the blocks already announced through the Reader accessors "
+          "in a drawn order, compare with the originals, keep every result and re-verify all kept results after each later read and after the join. "
+          "Excluded while the tree has it (probed at run time, TestKnownPebbleSnapshotGetLeak): decoders failing inside a Pebble snapshot's Get callback (out-of-range index "
+          "probes through a snapshot), because pebblev2 snapshot.Get then leaks a reference and DB.Close panics."),
+    assumptions=["encoding/json rendering is used as the canonical form for structural comparison", "fxamacker/cbor trusted",
+                 "a value returned by a constructor/encoder/accessor belongs to the caller: nothing documents that it is invalidated by a later call"],
+    runs=[dict(run="^Test(Prop|Known)"), dict(run="^TestRace", race=True)],
 )
